@@ -20,9 +20,70 @@ OPS = {
 }  # fmt: skip
 
 
+class _Normalise(ast.NodeTransformer):
+    """Drops what is not a statement-level fact: docstrings, annotations; renames every parameter (other than `self`) and every
+    local (any name that is assigned, looped over or bound by a comprehension in the function) to v0, v1, … in order of first
+    appearance.  Names of globals, attributes, keywords of calls and literals stay."""
+
+    def __init__(self, fdef: ast.FunctionDef):
+        args = fdef.args
+        bound = [a.arg for a in args.posonlyargs + args.args + args.kwonlyargs if a.arg != "self"]
+        if args.vararg:
+            bound.append(args.vararg.arg)
+        if args.kwarg:
+            bound.append(args.kwarg.arg)
+        stores = sorted(
+            (n for n in ast.walk(fdef) if isinstance(n, ast.Name) and isinstance(n.ctx, (ast.Store, ast.Del))),
+            key=lambda n: (n.lineno, n.col_offset),
+        )
+        for n in stores:
+            if n.id not in bound:
+                bound.append(n.id)
+        # order of first appearance anywhere in the function (parameters first: they appear in the signature)
+        first = {}
+        for n in sorted(
+            (n for n in ast.walk(fdef) if isinstance(n, (ast.Name, ast.arg))),
+            key=lambda n: (n.lineno, n.col_offset),
+        ):
+            name = n.id if isinstance(n, ast.Name) else n.arg
+            if name in bound and name not in first:
+                first[name] = f"v{len(first)}"
+        self.names = first
+
+    def visit_Name(self, node):
+        if node.id in self.names:
+            return ast.copy_location(ast.Name(id=self.names[node.id], ctx=node.ctx), node)
+        return node
+
+    def visit_arg(self, node):
+        node.annotation = None
+        if node.arg in self.names:
+            node.arg = self.names[node.arg]
+        return node
+
+    def visit_AnnAssign(self, node):
+        self.generic_visit(node)
+        if node.value is None:
+            return None
+        return ast.copy_location(ast.Assign(targets=[node.target], value=node.value), node)
+
+    def visit_FunctionDef(self, node):
+        node.returns = None
+        if node.body and isinstance(node.body[0], ast.Expr) and isinstance(getattr(node.body[0], "value", None), ast.Constant) \
+                and isinstance(node.body[0].value.value, str):
+            node.body = node.body[1:] or [ast.Pass()]
+        self.generic_visit(node)
+        return node
+
+
 def fn_tree(fn) -> ast.AST:
+    """the function's syntax tree, normalised (see `_Normalise`): comments, docstrings, blank lines, annotations and the names
+    of parameters / locals do not show in the tables, operators, literals, calls and their order do"""
     fn = getattr(fn, "fget", fn)  # properties
-    return ast.parse(textwrap.dedent(inspect.getsource(fn)))
+    tree = ast.parse(textwrap.dedent(inspect.getsource(fn)))
+    fdef = next(n for n in ast.walk(tree) if isinstance(n, ast.FunctionDef))
+    tree = _Normalise(fdef).visit(tree)
+    return tree
 
 
 def _pos(n) -> Tuple[int, int]:
@@ -87,36 +148,58 @@ NUM_T = "List (Int × Nat)"
 
 
 def emit_all(emit):
-    from classy_blocks.items.edges.arcs import angle, arc_base, origin
+    # --- plain value tables first (the only table a Model file names: c08Tol)
     from classy_blocks.util import constants
-    from classy_blocks.util import functions as f
 
     n, d = float(constants.TOL).as_integer_ratio()
     emit("c08Tol", "Int × Nat", (n, d), "constants.TOL as an exact fraction (threshold of `needs_adjust` in arc_from_origin)")
 
-    # --- round 6: the source text of the anchored functions
-    emit("c08ThetaCompares", CMP_T, compares(angle.arc_from_theta), "comparisons of arc_from_theta (one: the guard on the sector angle)")
-    emit("c08ThetaNegated", "List Bool", negated_compares(angle.arc_from_theta), "… is the comparison under a `not`")
-    emit("c08ThetaNumbers", NUM_T, numbers(angle.arc_from_theta), "numeric literals of arc_from_theta in source order")
-    emit("c08OriginCompares", CMP_T, compares(origin.arc_from_origin), "comparisons of arc_from_origin: needs_adjust threshold, multiplier test")
-    emit("c08OriginNumbers", NUM_T, numbers(origin.arc_from_origin), "numeric literals of arc_from_origin in source order")
-    emit("c08OriginDefaults", "List (String × String)", defaults(origin.arc_from_origin), "default arguments of arc_from_origin")
-    emit(
-        "c08OriginRecursion",
-        "List (List String)",
-        calls(origin.arc_from_origin, "arc_from_origin"),
-        "arguments of the recursive call of arc_from_origin (adjusted centre, adjust_center=False)",
-    )
-    emit("c08OriginArcMid", "List (List String)", calls(origin.arc_from_origin, "arc_mid"), "arguments of the arc_mid call")
-    emit("c08Arc3Compares", CMP_T, compares(f.arc_length_3point), "comparisons of arc_length_3point: denominator guard, side test")
-    emit("c08Arc3Numbers", NUM_T, numbers(f.arc_length_3point), "numeric literals of arc_length_3point in source order")
-    emit("c08Arc3Clip", "List (List String)", calls(f.arc_length_3point, "clip"), "arguments of np.clip in arc_length_3point")
-    emit("c08DivideArcNumbers", NUM_T, numbers(f.divide_arc), "numeric literals of divide_arc (count + 2 samples, slice [1:-1])")
-    emit("c08ArcMidCall", "List (List String)", calls(f.arc_mid, "divide_arc"), "arc_mid = divide_arc(..., 1)[0]")
-    emit("c08ValidCompares", CMP_T, compares(arc_base.ArcEdgeBase.is_valid), "comparison of ArcEdgeBase.is_valid (collinearity measure vs TOL)")
-    emit(
-        "c08LengthCall",
-        "List (List String)",
-        calls(arc_base.ArcEdgeBase.length, "arc_length_3point"),
-        "arguments of arc_length_3point in ArcEdgeBase.length (start, third point, end)",
-    )
+    # --- round 6: the source text of the anchored functions; every group on its own (a group that cannot translate the current
+    # source is recorded as a failure, the other tables are still emitted; only `CBV.Props.C08` names these tables)
+    def theta():
+        from classy_blocks.items.edges.arcs import angle
+
+        emit("c08ThetaCompares", CMP_T, compares(angle.arc_from_theta), "comparisons of arc_from_theta (one: the guard on the sector angle)")
+        emit("c08ThetaNegated", "List Bool", negated_compares(angle.arc_from_theta), "… is the comparison under a `not`")
+        emit("c08ThetaNumbers", NUM_T, numbers(angle.arc_from_theta), "numeric literals of arc_from_theta in source order")
+
+    def origin_():
+        from classy_blocks.items.edges.arcs import origin
+
+        emit("c08OriginCompares", CMP_T, compares(origin.arc_from_origin), "comparisons of arc_from_origin: needs_adjust threshold, multiplier test")
+        emit("c08OriginNumbers", NUM_T, numbers(origin.arc_from_origin), "numeric literals of arc_from_origin in source order")
+        emit("c08OriginDefaults", "List (String × String)", defaults(origin.arc_from_origin), "default arguments of arc_from_origin")
+        emit(
+            "c08OriginRecursion",
+            "List (List String)",
+            calls(origin.arc_from_origin, "arc_from_origin"),
+            "arguments of the recursive call of arc_from_origin (adjusted centre, adjust_center=False)",
+        )
+        emit("c08OriginArcMid", "List (List String)", calls(origin.arc_from_origin, "arc_mid"), "arguments of the arc_mid call")
+
+    def arc3():
+        from classy_blocks.util import functions as f
+
+        emit("c08Arc3Compares", CMP_T, compares(f.arc_length_3point), "comparisons of arc_length_3point: denominator guard, side test")
+        emit("c08Arc3Numbers", NUM_T, numbers(f.arc_length_3point), "numeric literals of arc_length_3point in source order")
+        emit("c08Arc3Clip", "List (List String)", calls(f.arc_length_3point, "clip"), "arguments of np.clip in arc_length_3point")
+
+    def divide():
+        from classy_blocks.util import functions as f
+
+        emit("c08DivideArcNumbers", NUM_T, numbers(f.divide_arc), "numeric literals of divide_arc (count + 2 samples, slice [1:-1])")
+        emit("c08ArcMidCall", "List (List String)", calls(f.arc_mid, "divide_arc"), "arc_mid = divide_arc(..., 1)[0]")
+
+    def arc_base_():
+        from classy_blocks.items.edges.arcs import arc_base
+
+        emit("c08ValidCompares", CMP_T, compares(arc_base.ArcEdgeBase.is_valid), "comparison of ArcEdgeBase.is_valid (collinearity measure vs TOL)")
+        emit(
+            "c08LengthCall",
+            "List (List String)",
+            calls(arc_base.ArcEdgeBase.length, "arc_length_3point"),
+            "arguments of arc_length_3point in ArcEdgeBase.length (start, third point, end)",
+        )
+
+    for group in (theta, origin_, arc3, divide, arc_base_):
+        emit.guard(group)
